@@ -137,6 +137,91 @@ def check_drivers(ck):
             compare_with_recompute(ck, name, wf, cfg, inp)
 
 
+class StepProxy:
+    """forwards everything to the wave function; after EVERY updateinternals issued by a driver compares the object's value with a
+    fresh recompute on the driver's current coordinates, and checks that the walkers it was told about are those whose coordinates moved"""
+
+    def __init__(self, wf, ck, name, driver):
+        object.__setattr__(self, "_wf", wf)
+        object.__setattr__(self, "_ref", wc.fresh(wf))
+        object.__setattr__(self, "_ck", ck)
+        object.__setattr__(self, "_inp", {"wf": name, "driver": driver})
+        object.__setattr__(self, "stats", {"updates": 0, "told": 0, "bad": 0, "partial_masks": 0, "told_without_cached_values": 0})
+
+    def __getattr__(self, k):
+        return getattr(self._wf, k)
+
+    def __setattr__(self, k, v):
+        setattr(self._wf, k, v)
+
+    def updateinternals(self, e, epos, configs, mask=None, saved_values=None):
+        if saved_values is None:
+            self._wf.updateinternals(e, epos, configs, mask=mask)
+        else:
+            self._wf.updateinternals(e, epos, configs, mask=mask, saved_values=saved_values)
+        st = self.stats
+        st["updates"] += 1
+        nconf = configs.configs.shape[0]
+        m = np.ones(nconf, dtype=bool) if mask is None else np.asarray(mask)
+        st["told"] += int(m.sum())
+        st["told_without_cached_values"] += int(m.sum()) if saved_values is None else 0
+        st["partial_masks"] += int(0 < m.sum() < nconf)
+        s1, l1 = self._wf.value()
+        s0, l0 = self._ref.recompute(configs)
+        l0r = np.real(np.asarray(l0))
+        ok = np.isfinite(l0r) & (l0r > np.median(l0r) - 25)
+        d = np.abs(np.asarray(l1) - np.asarray(l0))[ok]
+        ds = np.abs(np.asarray(s1) - np.asarray(s0))[ok]
+        if d.size and (np.max(d) > 1e-7 * max(1.0, float(np.max(np.abs(l0r[ok])))) or np.max(ds) > 1e-7):
+            st["bad"] += 1
+            if st["bad"] <= 2:
+                w = int(np.flatnonzero(ok)[int(np.argmax(d + ds))])
+                self._ck.violation("incremental_state_differs_from_recompute", S_DRV, dict(self._inp, update_number=st["updates"], electron=int(e), walker=w, told_to_update=bool(m[w])),
+                                   expected={"sign": complex(np.asarray(s0)[w]).__repr__(), "log": complex(np.asarray(l0)[w]).__repr__()},
+                                   got={"sign": complex(np.asarray(s1)[w]).__repr__(), "log": complex(np.asarray(l1)[w]).__repr__()},
+                                   oracle="after each updateinternals issued by the driver: deep copy recomputed on the driver's coordinates")
+
+
+def check_driver_steps(ck):
+    """the drivers' own sequence of (move coordinates, tell the wave function) checked after every single update — including the
+    pseudopotential T-move loop of dmc_propagate (selected-and-accepted vs selected-and-rejected walkers), which an end-state check can miss"""
+    import pyqmc.method.mc as mc
+    import pyqmc.method.dmc as dmc
+    from pyqmc.observables.accumulators import EnergyAccumulator
+    sel_log = []
+    orig_pt = dmc.propose_tmoves
+    def rec_pt(*a, **k):
+        out = orig_pt(*a, **k)
+        sel_log.append(np.asarray(out[1]).copy())
+        return out
+    totals = {}
+    for name, mol, wf in wfzoo.ecp_wfs(ck.rng, periodic=True):
+        periodic = hasattr(mol, "a")
+        nconf = (24 if ck.thorough else 12) if periodic else (300 if ck.thorough else 120)
+        cfg = wfzoo.walkers(mol, nconf, ck.rng)
+        for use_old in ((True, False) if (ck.thorough or not periodic) else (False,)):
+            np.random.seed(int(ck.rng.integers(0, 2 ** 31)))
+            acc = EnergyAccumulator(mol, use_old_ecp=use_old)
+            px = StepProxy(wf, ck, name, "dmc_propagate(T-moves, use_old_ecp=%s)" % use_old)
+            del sel_log[:]
+            dmc.propose_tmoves = rec_pt
+            try:
+                ok, _ = ck.guarded(lambda: dmc.dmc_propagate(px, cfg.copy(), np.ones(nconf), 0.5, 10.0, 0.0, 0.0, nsteps=3 if periodic else 16, accumulators={"energy": acc}, ekey=("energy", "total")),
+                                   "driver", S_DRV, px._inp)
+            finally:
+                dmc.propose_tmoves = orig_pt
+            ck.case(("drvstep", name, use_old), nontrivial=True)
+            st = dict(px.stats, tmoves_selected=int(sum(m.sum() for m in sel_log)))
+            st["tmoves_selected_then_rejected"] = st["tmoves_selected"] - st["told_without_cached_values"]
+            totals["%s/old_ecp=%s" % (name, use_old)] = st
+        np.random.seed(int(ck.rng.integers(0, 2 ** 31)))
+        px = StepProxy(wf, ck, name, "vmc_worker")
+        ok, _ = ck.guarded(lambda: mc.vmc_worker(px, cfg.copy(), 0.4, 2, {}), "driver", S_DRV, px._inp)
+        ck.case(("drvstep", name, "vmc"), nontrivial=True)
+        totals["%s/vmc" % name] = dict(px.stats)
+    ck.stats["driver_updates_checked_one_by_one"] = totals
+
+
 def check_sm(ck, sm_log):
     """slater.sherman_morrison_ms against the exact model (Qc, vm_compute): recorded calls + random matrices up to 6x6"""
     import pyqmc.wf.slater as sl
@@ -285,6 +370,7 @@ def main(argv):
         if not ck.replay:
             check_histories(ck, sm_log)
             check_drivers(ck)
+            check_driver_steps(ck)
     finally:
         sl.sherman_morrison_ms = orig
     check_sm(ck, sm_log)
